@@ -5,7 +5,7 @@ cd /verif
 if [ -n "$(git -C /repo status --porcelain)" ]; then echo "/repo is not clean"; exit 2; fi
 for d in seeded/*/; do
   id=$(basename $d)
-  prop=$(/venv/bin/python -c "import json;print(json.load(open('$d/meta.json'))['breaks_property'])")
+  prop=$(/venv/bin/python -c "import json;m=json.load(open('$d/meta.json'));print((m.get('reported_by') or [m['breaks_property']])[0])")
   git -C /repo apply /verif/${d}patch.diff || { echo "$id: patch does not apply"; continue; }
   demo=$(cd /repo && PYTHONPATH=/repo timeout 600 /venv/bin/python /verif/$d/demo.py >/dev/null 2>&1; echo $?)
   out=$(VERIF_NO_EVIDENCE=1 /venv/bin/python vcheck.py $prop --tier quick 2>&1); rc=$?
